@@ -5,8 +5,7 @@ REAL_COMMON = ["github.com/slackhq/nebula compiled from /repo's working tree (in
 
 # package key -> (import path, directory under /repo, build tags, race)
 PACKAGES = {
-    "nebula":    {"path": "github.com/slackhq/nebula", "dir": "", "tags": "", "race": False},
-    "nebula_verif": {"path": "github.com/slackhq/nebula", "dir": "", "tags": "verif", "race": False},
+    "nebula":    {"path": "github.com/slackhq/nebula", "dir": "", "tags": "verif", "race": False},
     "handshake": {"path": "github.com/slackhq/nebula/handshake", "dir": "handshake", "tags": "", "race": False},
     "udp":       {"path": "github.com/slackhq/nebula/udp", "dir": "udp", "tags": "", "race": False},
     "e2e":       {"path": "github.com/slackhq/nebula/e2e", "dir": "e2e", "tags": "e2e_testing", "race": True},
@@ -16,6 +15,7 @@ def tier(runs, budget_s, shrink_s=15, recheck=50, workers=16):
     return {"runs": runs, "budget_s": budget_s, "shrink_s": shrink_s, "recheck": recheck, "workers": workers}
 
 CHECKS = {}
+HOOK_COMMITS = ["3be429e"]
 
 def check(pid, **kw):
     kw.setdefault("level", "exploration")
@@ -55,6 +55,36 @@ check("C28",
     real=["HostMap, HandshakeManager, handshake.Machine, connectionManager, LightHouse, relayManager, Interface packet paths, Firewall, PKI, config reload (all real, wired like Main)"],
     stub=["UDP socket (simConn)", "tun device (simTun)", "goroutine loop shells (driver calls the loop bodies)", "wall clock (synctest bubble)", "crypto/rand (cryptotest seeded)"],
     assumptions=["single-threaded driver: no intra-node goroutine interleavings"],
+)
+
+A_REAL = ["HostMap, HandshakeManager, handshake.Machine, connectionManager, LightHouse, relayManager, Punchy, Interface packet paths (readOutsidePackets/consumeInsidePacket), Firewall, PKI, config reload — all real, wired like Main"]
+A_STUB = ["UDP socket (simConn)", "tun device (simTun)", "goroutine loop shells (the driver calls the loop bodies as events)", "wall clock (synctest bubble)", "crypto/rand (cryptotest seeded)", "DNS/host interface enumeration"]
+A_NOTE = "Trusted: the harness wiring that mirrors Main (same constructors and order, no goroutines), the simulated socket/tun/network, and the oracle. Goroutine interleavings inside one node are not explored by this engine (single driver goroutine)."
+A_ASSUME = ["single-threaded driver: no intra-node goroutine interleavings"]
+
+def engine_a(pid, **kw):
+    kw.setdefault("pkg", "nebula")
+    kw.setdefault("engine", "A-netsim")
+    kw.setdefault("real", A_REAL)
+    kw.setdefault("stub", A_STUB)
+    kw.setdefault("level_note", A_NOTE)
+    kw.setdefault("assumptions", A_ASSUME)
+    kw.setdefault("quick", tier(1500, 35))
+    kw.setdefault("thorough", tier(60000, 900, shrink_s=120))
+    check(pid, **kw)
+
+engine_a("C29",
+    scenarios=["C29.mesh"],
+    technique="deterministic whole-overlay simulation with the tunnel-index random source squeezed to 3-6 bits (collision/zero/retry branches constantly taken); index-uniqueness invariant after every event",
+    rule="one run = a 3-5 node overlay (lighthouse, relay topology with blocked direct paths) for 15-45 s (thorough: up to 150 s) with index draws limited to 3-6 bits incl. zero, rehandshakes, closes, restarts, stalls, partitions; distinct = distinct abstract trace hash; non-trivial = index draws exceeded 3x the index space and a zero was drawn",
+    level_text="Seeded search over handshake/teardown/relay histories with a tiny index space: after every event every node's pending and established index maps and relay index map are checked (non-zero, one owner per index, one index per tunnel, no index shared between a pending and an established tunnel, an index or remote-index entry disappears only with its owner). Evidence, not proof. Goroutine-level races of the allocation paths are the engine-B part (not in this check).",
+)
+
+engine_a("C09",
+    scenarios=["C09.mesh"],
+    technique="deterministic whole-overlay simulation (wrong responder, address-claiming certified peer, v1/v2, multi-address, relay/lighthouse discovery, transport faults) with tunnel-to-certificate binding checked after every event against simulator ground truth",
+    rule="one run = 3-6 node overlay for 15-45 s (thorough: up to 150 s) with optional wrong responder at the expected underlay address and optional peer whose certificate also lists another node's address; distinct = distinct abstract trace hash; non-trivial = at least one session was matched to its ground-truth peer by index cross-match + decrypt probe in a run with a wrong responder or an address claimer",
+    level_text="Seeded search over discovery/handshake histories; after every event every reachable tunnel must carry a CA-signed certificate, its recorded addresses must equal the certificate's in order, every address it serves must be in that certificate, none may be the node's own, and the node actually holding the session keys (found by index cross-match and a decrypt probe) must own that certificate. Evidence, not proof.",
 )
 
 NOT_APPLICABLE = {
